@@ -120,15 +120,16 @@ def search (s : Bytes) (r : Re) : Option (Nat × Res) := searchFrom s r (s.lengt
 /-- the current value of group `n` -/
 def lookup (c : Caps) (n : Nat) : Option (Nat × Nat) := (c.find? fun e => e.1 == n).map (·.2)
 
-def pairOf (c : Caps) (n : Nat) : List Int :=
+/-- the index pair of group `n`: `(-1, -1)` when it did not participate -/
+def spanOf (c : Caps) (n : Nat) : Int × Int :=
   match lookup c n with
-  | some (a, b) => [(a : Int), (b : Int)]
-  | none => [-1, -1]
+  | some (a, b) => ((a : Int), (b : Int))
+  | none => (-1, -1)
 
-/-- groups `from … from+cnt-1` as index pairs -/
+/-- groups `n … n+cnt-1` as index pairs -/
 def groupPairs (c : Caps) : Nat → Nat → List Int
   | 0, _ => []
-  | cnt + 1, n => pairOf c n ++ groupPairs c cnt (n + 1)
+  | cnt + 1, n => (spanOf c n).1 :: (spanOf c n).2 :: groupPairs c cnt (n + 1)
 
 /-- the `[]int` of `FindSubmatchIndex` for an expression with groups `1 … ng` -/
 def indicesOf (ng : Nat) (m : Nat × Res) : List Int :=
